@@ -37,10 +37,10 @@ func (tx *Tx) getByHintBPTSparseIdxInMem(bucket string, key []byte) (e *Entry, e
 		if _, err := tx.db.ActiveCommittedTxIdsIdx.Find([]byte(strconv2.Int64ToStr(int64(r.H.meta.txID)))); err == nil {
 			path := tx.db.getDataPath(r.H.fileID)
 			df, err := NewDataFile(path, tx.db.opt.SegmentSize, tx.db.opt.RWMode)
-			defer df.rwManager.Close()
 			if err != nil {
 				return nil, err
 			}
+			defer df.rwManager.Close()
 
 			return df.ReadAt(int(r.H.dataPos))
 		}
@@ -659,7 +659,6 @@ func (tx *Tx) prefixScanByHintBPTSparseIdx(bucket string, prefix []byte, offsetN
 			path := tx.db.getDataPath(r.H.fileID)
 			df, err := NewDataFile(path, tx.db.opt.SegmentSize, tx.db.opt.RWMode)
 			if err != nil {
-				df.rwManager.Close()
 				return nil, off, err
 			}
 			if item, err := df.ReadAt(int(r.H.dataPos)); err == nil {
@@ -703,7 +702,6 @@ func (tx *Tx) prefixSearchScanByHintBPTSparseIdx(bucket string, prefix []byte, r
 			path := tx.db.getDataPath(r.H.fileID)
 			df, err := NewDataFile(path, tx.db.opt.SegmentSize, tx.db.opt.RWMode)
 			if err != nil {
-				df.rwManager.Close()
 				return nil, off, err
 			}
 			if item, err := df.ReadAt(int(r.H.dataPos)); err == nil {
